@@ -343,6 +343,29 @@ fn grid_job<Q: QueueLike>(n: usize, pat: usize) -> Result<JobOut, String> {
             bulk!(format!("{label}, history {history}"), total, a.q_append(&mut b));
         }
     }
+    // conversions of queues that still have the layout their construction gave them (a max-heap
+    // vector in decreasing order is the worst case for growing the other heap position by position)
+    {
+        let a: Q = Q::q_from_vec(mk_vec(0));
+        let _o: Q::Other = bulk!("conversion of a freshly built queue", n, a.q_into_other());
+        let mut b: Q = Q::q_new();
+        for (i, &p) in prios.iter().enumerate() {
+            b.q_push(Item::new(i as u32, 0), Prio::new(p));
+        }
+        let _o: Q::Other = bulk!("conversion of a queue filled by pushes", n, b.q_into_other());
+        let mut sorted_desc = prios.clone();
+        sorted_desc.sort_by(|x, y| y.cmp(x));
+        let mut c: Q = Q::q_new();
+        for (i, &p) in sorted_desc.iter().enumerate() {
+            c.q_push(Item::new(i as u32, 0), Prio::new(p));
+        }
+        let _o: Q::Other = bulk!("conversion of a queue filled by decreasing pushes", n, c.q_into_other());
+        let mut d: Q = Q::q_new();
+        for (i, &p) in sorted_desc.iter().rev().enumerate() {
+            d.q_push(Item::new(i as u32, 0), Prio::new(p));
+        }
+        let _o: Q::Other = bulk!("conversion of a queue filled by increasing pushes", n, d.q_into_other());
+    }
     let len = q.q_len();
     let o: Q::Other = bulk!("conversion", len, q.q_into_other());
     let len = o.q_len();
